@@ -33,3 +33,18 @@ impl Typer {
     #[verifier::external_body]
     pub fn solve(&mut self, genv: &PackageTypeEnv, diagnostics: &mut Diagnostics) requires old(self).body_checked(), ensures final(self).solved() { unimplemented!() }
 }
+// ---- methods of an impl block (fragment method_body_checked): the declared types with `Self` replaced by the impl's type ----
+pub uninterp spec fn self_inst(t: Ty, for_ty: Ty) -> Ty;               // instantiate_self_ty (U-SELFTY)
+#[verifier::external_body] pub fn instantiate_self_ty(ty: &Ty, for_ty: &Ty) -> (r: Ty) ensures r == self_inst(*ty, *for_ty) { unimplemented!() }
+pub open spec fn params_bound_m(ps: Seq<(LocalId, HirTypeExpr)>, for_ty: Ty, env: LocalTypeEnv) -> bool {
+    forall|i: int| 0 <= i < ps.len() && last_with_id(ps, i) ==> env.bound((#[trigger] ps[i]).0) == Some(self_inst(hir_ty(ps[i].1), for_ty))
+}
+pub open spec fn declared_ret_m(f: HirFn, for_ty: Ty) -> Ty { match f.ret_ty { Some(h) => self_inst(hir_ty(h), for_ty), None => Ty::TUnit } }
+impl Typer {
+    #[verifier::external_body]
+    pub fn check_body_m(&mut self, genv: &PackageTypeEnv, local_env: &mut LocalTypeEnv, diagnostics: &mut Diagnostics, e: ExprId, expected: &Ty, Ghost(f): Ghost<HirFn>, Ghost(for_ty): Ghost<Ty>) -> (r: Expr)
+        requires e == f.body, *expected == declared_ret_m(f, for_ty), params_bound_m(f.params@, for_ty, *old(local_env)),
+        ensures final(self).body_checked(),
+    { unimplemented!() }
+}
+#[verifier::external_body] pub fn tparams_of(all_generics: &Vec<HirIdent>) -> (r: Vec<TastIdent>) { unimplemented!() }      // all_generics.iter().map(|g| TastIdent(g.to_ident_name())).collect()
